@@ -345,6 +345,29 @@ fn normalise(progs: &mut Vec<Vec<Call>>) {
 
 #[derive(Default)]
 struct LazyLog(Vec<u32>);
+/// Tags of the follow-up actions that ran: an action with an ODD tag is queued with `exec_mut` and, when it runs, queues a
+/// follow-up with the plain `exec`; the follow-up must run (exactly once) later in the same `maintain`.
+#[derive(Default)]
+struct FollowLog(Vec<u32>);
+
+fn queue_lazy(lazy: &LazyUpdate, tag: u32) {
+    if tag % 2 == 1 {
+        lazy.exec_mut(move |w| {
+            w.write_resource::<LazyLog>().0.push(tag);
+            w.read_resource::<LazyUpdate>().exec(move |w| w.write_resource::<FollowLog>().0.push(tag));
+        });
+    } else {
+        lazy.exec(move |w| w.write_resource::<LazyLog>().0.push(tag));
+    }
+}
+
+/// `ok`, or what is wrong with the follow-ups of the odd tags in the lazy log.
+fn followups_verdict(world: &World) -> String {
+    let mut want: Vec<u32> = world.read_resource::<LazyLog>().0.iter().cloned().filter(|t| t % 2 == 1).collect();
+    let mut got: Vec<u32> = world.read_resource::<FollowLog>().0.clone();
+    want.sort(); got.sort();
+    if want == got { "ok".into() } else { format!("bad want={} got={}", want.len(), got.len()) }
+}
 
 struct St {
     n: usize,
@@ -548,7 +571,7 @@ fn exec_call(tid: usize, call: &Call, ents: &specs::world::EntitiesRes, lazy: La
         #[cfg(not(feature = "np"))]
         Call::Lazy(tag) => {
             let tag = *tag;
-            lazy.exec(move |w| w.write_resource::<LazyLog>().0.push(tag));
+            queue_lazy(lazy, tag);
             push_event(format!("ev {} lazy {} => ok", tid, tag), None);
         }
         #[cfg(feature = "np")]
@@ -607,6 +630,7 @@ fn flush(out: &mut String) {
 fn run_case(case: &Case, out: &mut String, sched_is_prefix: bool, hang_secs: u64) -> Outcome {
     let mut ex = Exec::new();
     ex.world.insert(LazyLog::default());
+    ex.world.insert(FollowLog::default());
     let mut head = String::new();
     writeln!(head, "case {}", case.id).unwrap();
     for op in &case.init {
@@ -614,7 +638,7 @@ fn run_case(case: &Case, out: &mut String, sched_is_prefix: bool, hang_secs: u64
             InitOp::W(op) => ex.exec(op),
             InitOp::Lazy(tag) => {
                 let tag = *tag;
-                ex.world.read_resource::<LazyUpdate>().exec(move |w| w.write_resource::<LazyLog>().0.push(tag));
+                queue_lazy(&ex.world.read_resource::<LazyUpdate>(), tag);
                 "ok".to_string()
             }
         };
@@ -748,6 +772,7 @@ fn run_case(case: &Case, out: &mut String, sched_is_prefix: bool, hang_secs: u64
         write!(out, " {}", t).unwrap();
     }
     out.push('\n');
+    writeln!(out, "followups => {}", followups_verdict(&ex.world)).unwrap();
     Outcome { executed: st.executed, enabled: st.enabled, aborted: st.aborted }
 }
 
@@ -984,6 +1009,7 @@ fn stress(seed: u64, threads: usize, calls: usize, out: &mut String) {
     let mut rng = Rng::new(seed);
     let mut ex = Exec::new();
     ex.world.insert(LazyLog::default());
+    ex.world.insert(FollowLog::default());
     // history: a large free list, some pending atomics
     let base = 50 + rng.below(200) as usize;
     ex.exec(&Op::CreateIter { atomic: false, n: base });
@@ -1083,7 +1109,7 @@ fn stress(seed: u64, threads: usize, calls: usize, out: &mut String) {
                         _ => {
                             tag += 1;
                             let tg = tag;
-                            lazy.exec(move |w| w.write_resource::<LazyLog>().0.push(tg));
+                            queue_lazy(lazy, tg);
                             r.tags.push(tg);
                         }
                         #[cfg(feature = "np")]
@@ -1145,6 +1171,8 @@ fn stress(seed: u64, threads: usize, calls: usize, out: &mut String) {
         let mine: Vec<u32> = ll.iter().cloned().filter(|x| (x >> 20) as usize == t).collect();
         if mine != r.tags { fails.push(format!("lazy actions of thread {} lost, duplicated or reordered", t)); }
     }
+    let fv = followups_verdict(&ex.world);
+    if fv != "ok" { fails.push(format!("follow-ups queued by exec_mut actions: {}", fv)); }
     let ncreated = created.len();
     writeln!(out, "case s{}-{}-{}", seed, threads, calls).unwrap();
     let c17 = c17.map(|s| format!(" {}", s)).unwrap_or_default();
